@@ -89,6 +89,8 @@ class _Sut:
                 return {'mean': np.array(self.o.mean), 'var': np.array(self.o.var)}
             r = self.o.compute()
             out = {'result': np.array(r)}
+            if isinstance(r, np.ndarray) and r.flags.writeable:
+                r[...] = -12345.0              # the caller owns the returned array: overwriting it must not influence later computes
             if self.kind == 'tbuild':
                 out['pooled_covariance'] = np.array(self.o.pooled_covariance)
             return out
